@@ -42,8 +42,8 @@ Print Assumptions pieces_spec.
 
 (* ---- "Resource::Create(attrs) yields the SDK defaults, overridden by OTEL_RESOURCE_ATTRIBUTES / OTEL_SERVICE_NAME,
         overridden by the caller's attributes" *)
-Theorem create_precedence : forall ra sn attrs schema r,
-  create ra sn attrs schema = Some r ->
+Theorem create_precedence : forall ra sn attrs schema,
+  let r := create ra sn attrs schema in
   r_schema r = schema /\
   forall k,
     (forall v, lookup k attrs = Some v -> lookup k (r_attrs r) = Some v) /\
@@ -55,41 +55,26 @@ Theorem create_precedence : forall ra sn attrs schema r,
 Proof. exact create_precedence_proof. Qed.
 Print Assumptions create_precedence.
 
-(* ---- "... and always contains a service.name".
-   Full statement:  forall ra sn attrs schema, exists r, create ra sn attrs schema = Some r /\
-                                               lookup key_service_name (r_attrs r) <> None.
-   REFUTED on the current code (open finding F25): Create throws when no service.name is configured and
-   process.executable.name is not a string. *)
-Theorem service_name_always_present_refuted : exists ra sn attrs schema, create ra sn attrs schema = None.
-Proof. exact service_name_always_present_refuted_proof. Qed.
-Print Assumptions service_name_always_present_refuted.
+(* ---- "... and always contains a service.name": for every environment, attribute map (any value types) and
+        schema URL Create yields a resource with a service.name - the configured one, else
+        unknown_service[:<process.executable.name when it is a string>].
+        (Refuted before the repair eff8d52 of finding F25; f25_regression in ProofsRes.v keeps the old witness.) *)
+Theorem service_name_always_present : forall ra sn attrs schema,
+  exists v, lookup key_service_name (r_attrs (create ra sn attrs schema)) = Some v /\
+            (layered ra sn attrs key_service_name = None -> v = fallback_name (layered ra sn attrs key_exe_name)) /\
+            (forall w, layered ra sn attrs key_service_name = Some w -> v = w).
+Proof. exact service_name_always_present_proof. Qed.
+Print Assumptions service_name_always_present.
 
-(* strongest true form: whenever Create returns the resource has a service.name, and it returns whenever a
-   service.name is configured or the executable name is absent or a string *)
-Theorem service_name_always_present_partial : forall ra sn attrs schema,
-  (forall r, create ra sn attrs schema = Some r -> exists v, lookup key_service_name (r_attrs r) = Some v) /\
-  ((layered ra sn attrs key_service_name <> None \/
-    layered ra sn attrs key_exe_name = None \/ exists e, layered ra sn attrs key_exe_name = Some (VStr e)) ->
-   exists r, create ra sn attrs schema = Some r).
-Proof. exact service_name_always_present_partial_proof. Qed.
-Print Assumptions service_name_always_present_partial.
-
-(* Create completely characterised, including when it throws *)
+(* Create completely characterised *)
 Theorem create_total_characterisation : forall (ra sn : envv) (attrs : amap) (schema : bytes),
-  match create ra sn attrs schema with
-  | None => layered ra sn attrs key_service_name = None /\
-            (exists z, layered ra sn attrs key_exe_name = Some (VInt z)) \/
-            layered ra sn attrs key_service_name = None /\
-            (exists b, layered ra sn attrs key_exe_name = Some (VBool b))
-  | Some r =>
-      r_schema r = schema /\
-      (forall k, lookup k (r_attrs r) =
-                 match layered ra sn attrs k with
-                 | Some v => Some v
-                 | None => if bytes_eqb k key_service_name then fallback_name (layered ra sn attrs key_exe_name) else None
-                 end) /\
-      (layered ra sn attrs key_service_name = None -> fallback_name (layered ra sn attrs key_exe_name) <> None)
-  end.
+  let r := create ra sn attrs schema in
+  r_schema r = schema /\
+  (forall k, lookup k (r_attrs r) =
+             match layered ra sn attrs k with
+             | Some v => Some v
+             | None => if bytes_eqb k key_service_name then Some (fallback_name (layered ra sn attrs key_exe_name)) else None
+             end).
 Proof. exact create_characterised. Qed.
 Print Assumptions create_total_characterisation.
 
@@ -165,8 +150,7 @@ Proof. exact provider_resource_referenced_proof. Qed.
 Print Assumptions provider_resource_referenced.
 
 (* ---- model_meets_spec, clause by clause: the SPEC checkers ./check runs on the implementation's observations
-        report nothing on the model's own results, for every input (a throwing Create is reported under the
-        signature of finding F25 and nothing else) *)
+        report nothing on the model's own results, for every input *)
 Theorem model_meets_spec_bool : forall v, clause_bool v (fst (get_bool v)) (snd (get_bool v)) = [].
 Proof. exact clause_bool_ok. Qed.
 Print Assumptions model_meets_spec_bool.
@@ -192,12 +176,11 @@ Theorem model_meets_spec_merge : forall a b, NoDup (keys (r_attrs a)) -> NoDup (
 Proof. exact clause_merge_ok. Qed.
 Print Assumptions model_meets_spec_merge.
 Theorem model_meets_spec_create : forall ra sn attrs schema,
-  clause_create ra sn attrs schema (obs_of_o (create ra sn (map_of_list attrs) schema)) =
-  match create ra sn (map_of_list attrs) schema with Some _ => [] | None => f25 end.
+  clause_create ra sn attrs schema (obs_of (create ra sn (map_of_list attrs) schema)) = [].
 Proof. exact clause_create_ok. Qed.
 Print Assumptions model_meets_spec_create.
 Theorem model_meets_spec_scripts : forall ra sn ops, rops_wf 0 ops ->
-  only_f25 (clause_rops ra sn ops (map obs_of_o (run_rops ra sn ops))).
+  clause_rops ra sn ops (map obs_of_o (run_rops ra sn ops)) = [].
 Proof. exact clause_rops_ok. Qed.
 Print Assumptions model_meets_spec_scripts.
 Theorem model_meets_spec_providers : forall rs ops,
